@@ -51,12 +51,15 @@ def baselineDQT (components quality : Int) : Option (List (List Int)) := do
     pure [t0, t1]
   else pure [t0]
 
-/-- Decoder.parseDQT (8-bit precision): scatter the 64 bytes through ZigZag -/
-def parseDQT8 (data : List Int) : Option (Array Int) :=
-  (List.range 64).foldlM (fun (t : Array Int) (i : Nat) => do
+/-- Decoder.parseDQT (8-bit precision), first n iterations of `qtables[tq][ZigZag[i]] = int32(data[offset+i])` -/
+def parseDQTn (n : Nat) (data : List Int) : Option (Array Int) :=
+  (List.range n).foldlM (fun (t : Array Int) (i : Nat) => do
     let z ← getI ZigZag i
     let v ← data[i]?
     setI t z v) (Array.replicate 64 0)
+
+/-- Decoder.parseDQT (8-bit precision): scatter the 64 bytes through ZigZag -/
+def parseDQT8 (data : List Int) : Option (Array Int) := parseDQTn 64 data
 
 /-- edge replication index -/
 def edgeIdx (b x w : Int) : Int := min (b * 8 + x) (w - 1)
@@ -133,5 +136,84 @@ def withinBound (d : Int) (q : Array Int) : Bool :=
   let q00 := sumIf (fun i => i = 0)
   let x := 16 * ((d.natAbs : Int) - 2) - q00 - 2 * r
   decide (x ≤ 0) || decide (x * x ≤ 2 * m * m)
+
+end Dct
+
+/-!
+  ## extended.detectBitDepth (since fix 12cadee): walk the marker segments by their length fields
+  `detectLoop fuel rest` models one iteration of `for i := 2; i+3 < len(data); { … }` on `rest = data[i:]`
+  (the loop runs while at least 4 bytes remain); `fuel` bounds the iterations by the input length
+  (every iteration consumes at least one byte, so the bound is never reached).
+-/
+namespace Dct
+
+def detectLoop : Nat → List Nat → Nat
+  | 0, _ => 8
+  | fuel + 1, b0 :: m :: l1 :: l2 :: rest =>
+    if b0 ≠ 0xFF then 8
+    else if m = 0xFF then detectLoop fuel (m :: l1 :: l2 :: rest)
+    else if m = 0x01 ∨ (0xD0 ≤ m ∧ m ≤ 0xD7) then detectLoop fuel (l1 :: l2 :: rest)
+    else if 0xC0 ≤ m ∧ m ≤ 0xC3 then
+      (match rest with
+       | p :: _ => if p = 12 then 12 else 8
+       | [] => 8)
+    else if m = 0xDA ∨ m = 0xD9 then 8
+    else
+      let length := l1 * 256 + l2
+      if length < 2 then 8 else detectLoop fuel ((b0 :: m :: l1 :: l2 :: rest).drop (2 + length))
+  | _ + 1, _ => 8
+
+def detectBitDepth (data : List Nat) : Nat :=
+  match data with
+  | 0xFF :: 0xD8 :: rest => detectLoop data.length rest
+  | _ => 8
+
+/-- detectBitDepth BEFORE fix 12cadee (regression anchor of c11-ext12-bitdepth-sniff-dqt): raw byte scan,
+    `for i := 0; i < len(data)-5; i++ { if data[i] == 0xff && 0xc0 <= data[i+1] <= 0xc3 { … data[i+4] … } }` -/
+def detectBitDepthOld : List Nat → Nat
+  | b0 :: m :: a :: b :: p :: r :: rest =>
+    if b0 = 0xFF ∧ 0xC0 ≤ m ∧ m ≤ 0xC3 then (if p = 12 then 12 else 8)
+    else detectBitDepthOld (m :: a :: b :: p :: r :: rest)
+  | _ => 8
+
+/-- header of the stream encodeSequential12 writes: SOI, JFIF APP0, DQT(quality), SOF1 (12-bit, w×h, 1 component) -/
+def seq12Header (quality : Int) (w h : Nat) : Option (List Nat) := do
+  let dqt ← dqtPayload 0 (scaleQuantTable Gen.JpegStd.DefaultLuminanceQuantTable quality)
+  pure ([0xFF, 0xD8] ++ [0xFF, 0xE0, 0, 16, 74, 70, 73, 70, 0, 1, 1, 0, 0, 1, 0, 1, 0, 0] ++
+    [0xFF, 0xDB, 0, 67] ++ dqt.map Int.toNat ++
+    [0xFF, 0xC1, 0, 11, 12, h / 256, h % 256, w / 256, w % 256, 1, 1, 0x11, 0])
+
+/-- a marker segment as the writers emit it: FF m, 16-bit length (payload + 2), payload -/
+def segBytes (m : Nat) (payload : List Nat) : List Nat :=
+  [0xFF, m, (payload.length + 2) / 256, (payload.length + 2) % 256] ++ payload
+
+/-- markers that carry a length and are neither SOF0..3, SOS, EOI, TEM, RSTn nor a fill byte -/
+def plainMarker (m : Nat) : Bool :=
+  m != 0xFF && m != 0x01 && !(0xD0 ≤ m && m ≤ 0xD7) && !(0xC0 ≤ m && m ≤ 0xC3) && m != 0xDA && m != 0xD9
+
+end Dct
+
+/-!
+  ## Huffman category coding of coefficients
+  `HuffmanEncoder.EncodeCategory` (huffman_encoder.go): `cat = 1; for (1 << cat) <= absVal { cat++ }`, then
+  `bits = val` (val > 0) or `(1 << cat) + val - 1` (val < 0).  `HuffmanDecoder.ReceiveExtend` (huffman.go), the
+  EXTEND part: `if val < (1 << (ssss-1)) { val += (-1 << ssss) + 1 }`.  The loop is modelled with fuel 64
+  (never reached for |val| < 2^62).
+-/
+namespace Dct
+
+def catLoop (a : Nat) : Nat → Nat → Nat
+  | 0, cat => cat
+  | fuel + 1, cat => if 2 ^ cat ≤ a then catLoop a fuel (cat + 1) else cat
+
+/-- EncodeCategory: (cat, bits) -/
+def encodeCategory (v : Int) : Nat × Int :=
+  if v = 0 then (0, 0) else
+  let cat := catLoop v.natAbs 64 1
+  (cat, if v > 0 then v else (2 : Int) ^ cat + v - 1)
+
+/-- ReceiveExtend after `bits := ReadBits(ssss)` -/
+def extend (ssss : Nat) (bits : Int) : Int :=
+  if ssss = 0 then 0 else if bits < (2 : Int) ^ (ssss - 1) then bits + (-((2 : Int) ^ ssss) + 1) else bits
 
 end Dct
